@@ -44,9 +44,8 @@ fn must_fail<C: Cs>(ctx: &Ctx, kind: &str, case: &str, sig: &Sig<C>, pk: &zkrypt
     }
 }
 
-fn run<C: Cs>(ctx: &Ctx, idx: u64) {
+fn run<C: Cs>(ctx: &Ctx, idx: u64, nmax: usize, mixes: usize) {
     let mut r = ctx.rng("c13", idx);
-    let nmax = 5;
     let Some(st) = Setup::<C>::new(ctx, nmax) else {
         ctx.inconclusive("C13: key generation panicked (C18's business)");
         return;
@@ -57,7 +56,7 @@ fn run<C: Cs>(ctx: &Ctx, idx: u64) {
     let two_lm = Integer::from(1) << C::lm;
     for n in 1..=nmax {
         let bases = st.bases_n(n);
-        for mix in 0..ctx.t(3, 8) {
+        for mix in 0..mixes {
             let msgs = attributes::<C>(&mut r, n, mix);
             let case = format!("{}/n{}/mix{}/k{}", C::NAME, n, mix, idx);
             ctx.distinct(&case);
@@ -218,15 +217,57 @@ fn run<C: Cs>(ctx: &Ctx, idx: u64) {
     }
 }
 
+/// many signatures on random vectors: completeness and the encodings must not depend on rare value shapes
+/// (leading zero bytes in e, s, v, attributes of special form)
+fn volume<C: Cs>(ctx: &Ctx, idx: u64, count: usize) {
+    let mut r = ctx.rng("c13v", idx);
+    let Some(st) = Setup::<C>::new(ctx, 3) else {
+        ctx.inconclusive("C13: key generation panicked (C18's business)");
+        return;
+    };
+    let items: Vec<Vec<CL03Message>> = (0..count).map(|k| attributes::<C>(&mut r, 1 + k % 3, k % 7)).collect();
+    par_for_each(&items, 16, |msgs| {
+        let n = msgs.len();
+        let bases = st.bases_n(n);
+        let case = format!("{}/volume/n{}", C::NAME, n);
+        let Some(sig) = ctx.call("sign_multiattr", &case, None, || Ok::<_, ()>(Sig::<C>::sign_multiattr(st.pk(), st.sk(), &bases, msgs))).value else {
+            ctx.violation("C13:sign-panicked", json!({"case":case}));
+            return;
+        };
+        let (e, s, v) = sig_parts::<C>(&sig);
+        ctx.distinct(&format!("{}/e={}", case, e));
+        if ctx.call("verify_multiattr", &case, None, || Ok::<_, ()>(sig.verify_multiattr(st.pk(), &bases, msgs))).value != Some(true) {
+            ctx.violation("C13:issued-signature-rejected/verify_multiattr", json!({"case":case,"e_bits":e.significant_bits(),"s_bits":s.significant_bits(),"v_bits":v.significant_bits()}));
+        }
+        let b = sig.to_bytes();
+        match ctx.call("Signature::from_bytes", &case, None, || Ok::<_, ()>(Sig::<C>::from_bytes(&b))).value {
+            Some(s2) if s2 == sig => {}
+            _ => ctx.violation("C13:roundtrip/bytes", json!({"case":case,"v_bits":v.significant_bits()})),
+        }
+        match serde_json::from_str::<Sig<C>>(&serde_json::to_string(&sig).unwrap()) {
+            Ok(s2) if s2 == sig => {}
+            _ => ctx.violation("C13:roundtrip/json", json!({"case":case})),
+        }
+        if e.significant_bits() != C::le {
+            ctx.violation("C13:e-wrong-bit-length", json!({"case":case,"bits":e.significant_bits()}));
+        }
+        E_VALUES.lock().unwrap().push(json!({"case":case,"e":e.to_string_radix(16),"le":C::le}));
+    });
+    ctx.count("volume_signatures", count as u64);
+}
+
 pub fn scenarios(ctx: &Ctx) -> Vec<Scenario> {
     use zkryptium::cl03::ciphersuites::{CL1024Sha256, CL2048Sha256, CL3072Sha256};
     let mut v = Vec::new();
     if !ctx.quick() {
-        v.push(scenario("CL3072", |c| run::<CL3072Sha256>(c, 300)));
-        v.push(scenario("CL2048", |c| run::<CL2048Sha256>(c, 200)));
+        v.push(scenario("CL3072", |c| run::<CL3072Sha256>(c, 300, 2, 1)));
+        v.push(scenario("CL2048", |c| run::<CL2048Sha256>(c, 200, 3, 2)));
     }
-    for i in 0..ctx.t(2u64, 6u64) {
-        v.push(scenario("CL1024", move |c| run::<CL1024Sha256>(c, i)));
+    let count = ctx.t(800usize, 8000usize);
+    v.push(scenario("CL1024/volume", move |c| volume::<CL1024Sha256>(c, 900, count)));
+    let mixes = ctx.t(3usize, 8usize);
+    for i in 0..ctx.t(2u64, 10u64) {
+        v.push(scenario("CL1024", move |c| run::<CL1024Sha256>(c, i, 5, mixes)));
     }
     v
 }
